@@ -236,4 +236,30 @@ theorem lexF64_examples :
     lexF64 [110, 97, 110] = some 0x7ff8000000000000 ∧ lexF64 [49, 101] = none := by   -- nan, "1e"
   decide
 
+/-- A text whose WRITTEN date is 0000-12-31 (RFC 3339 allows year 0000) with a negative offset that carries it past
+    midnight (`Spec.inGrammarYear0`, the labels the driver counts inside the quantifier although their written year
+    is not 0001–9999) denotes an instant of 0001-01-01 of the scale it is read in: an epoch of calendar year 0001,
+    inside "all epochs with calendar year 0001-9999". -/
+theorem year0_label_denotes_an_epoch_of_year_1 (f : Form) (hf : f.hasOffset = true) (scale : String) (d : Date)
+    (h mi s : Int) (nd : Nat) (frac : Int) (oh om : Int) (hg : inGrammarYear0 d h mi s nd frac true oh om = true) :
+    elapsedNs (f.scaleOf scale) ⟨1, 1, 1⟩ 0 0 0 0 ≤ denoted f scale d h mi s nd frac true oh om ∧
+    denoted f scale d h mi s nd frac true oh om < elapsedNs (f.scaleOf scale) ⟨1, 1, 2⟩ 0 0 0 0 := by
+  unfold inGrammarYear0 at hg
+  simp only [decide_eq_true_eq, Bool.true_and] at hg
+  obtain ⟨hy, hm, hd, a1, a2, a3, a4, a5, a6, a7, a8, a9, a10, a11, a12, a13, a14⟩ := hg
+  have hfb := fracNs_bound nd frac a7 ⟨a8, a9⟩
+  have hd0 : dayNumber d = dayNumber ⟨1, 1, 1⟩ - 1 := by
+    obtain ⟨y, m, dd⟩ := d
+    simp only at hy hm hd
+    subst hy; subst hm; subst hd
+    decide
+  have hd2 : dayNumber ⟨1, 1, 2⟩ = dayNumber ⟨1, 1, 1⟩ + 1 := by decide
+  unfold denoted elapsedNs
+  rw [hf, hd0, hd2]
+  simp only [if_true, offsetNs, timeOfDay, fracNs, NPDs]
+  constructor <;> omega
+
+-- the hypothesis is satisfiable: 0000-12-31T23:30:00-01:00
+example : inGrammarYear0 ⟨0, 12, 31⟩ 23 30 0 0 0 true 1 0 = true := by decide
+
 end Hifi.C10
